@@ -172,9 +172,10 @@ class World:
                     raise Raised(v)
                 return v
             return call
-        for name in sa_cls.methods:
-            if not name.startswith("__"):
-                summ["shapeAdjust." + name] = sa_method(name)        # every method of the class, interpreted from its source
+        for name, fn_ in sa_cls.methods.items():
+            static = any((getattr(d, "id", None) or getattr(d, "attr", None)) in ("staticmethod", "classmethod") for d in fn_.node.decorator_list)
+            if not name.startswith("__") and not static:
+                summ["shapeAdjust." + name] = sa_method(name)        # every instance method of the class, interpreted from its source
         w = self
 
         def rec(name, val):
